@@ -24,14 +24,50 @@ MANUAL_RE = re.compile(r"^inputs/manual_robot_w(\d+)_l(\d+)_r(\d+)_rb(\d+)_lb(\d
 PARAMS = ["p_robot", "p_light", "p_tile", "p_loose"]
 
 
-def run_generator(p):
+def content_probabilities(gamesd):
+    """Which break probabilities is the CONTENT of the file built with?  Game A only contains the tile-break
+    probability, game B adds the robot's, game C adds the light's (each together with its complement and 1)."""
+    def probs(g):
+        return {p for s, tr in enumerate(g["transition_list"]) if g["players"][s] == "Probabilistic" for p, _ in tr}
+    a, b, c = probs(gamesd["game_a"]), probs(gamesd["game_b"]), probs(gamesd["game_c"])
+    return a - {1}, b - a - {1}, c - b - {1}
+
+
+def run_generator(p, want_content=False):
     rg = monitors.mods()["roberta_generator"]
+    cr = monitors.mods()["conditionalrewards"]
     argv = gc.gen_argv(p["seed"], p["width"], p["length"], p["p_robot"], p["p_light"], p["p_tile"], p["p_loose"], p["max_reward"], p["force_down"])
+    content = None
     with gc.Scratch() as sc_:
         exc, log, writes = gc.call_main(rg, argv)
         files = sc_.listing()
         rel = [os.path.relpath(w, sc_.dir) if os.path.isabs(w) else w for w in writes]
+        if want_content and exc is None and len(files) == 1:
+            try:
+                content = content_probabilities(cr.read_dict_from_file(files[0]))
+            except Exception as e:
+                content = "unreadable: %r" % e
+    if want_content:
+        return exc, rel, files, content
     return exc, rel, files
+
+
+def check_content(p, content):
+    """The name states rb/lb/tb = the probabilities passed; the games in the file must be built with those."""
+    if content is None:
+        return []
+    if isinstance(content, str):
+        return [{"problem": "generated file cannot be read back: " + content}]
+    tile, robot, light = content
+    pr = []
+    for nm, found, val in (("tile-break", tile, p["p_tile"]), ("robot", robot, p["p_robot"]), ("light", light, p["p_light"])):
+        allowed = {val, 1 - val}
+        if nm == "tile-break" and not found:
+            continue            # no loose tile on this board
+        if not found <= allowed or val not in found:
+            pr.append({"problem": "the file name states the %s probability %r but the games in the file are built with %s" % (nm, val, sorted(found)),
+                       "param": nm})
+    return pr
 
 
 def check_name(p, exc, writes, files):
@@ -109,11 +145,13 @@ def decide_random(idx, seed0):
     for q in PARAMS:
         p[q] = ks[q] / 100
     p["_k"] = ks
-    exc, writes, files = run_generator(p)
+    exc, writes, files, content = run_generator(p, want_content=True)
     monitors.MON.count("c17.names")
     problems = check_name(p, exc, writes, files)
+    if len({ks["p_robot"], ks["p_light"], ks["p_tile"], 100 - ks["p_robot"], 100 - ks["p_light"], 100 - ks["p_tile"]}) == 6:
+        problems += check_content(p, content)
     res = {"idx": idx, "verdict": "held", "tags": ["RND"], "key": repr(sorted((k, v) for k, v in p.items() if k != "_k")), "nontrivial": True,
-           "stats": {"names_parsed": 1}}
+           "stats": {"names_parsed": 1, "content_checked": int(content is not None)}}
     if problems:
         res.update(verdict="violated", what=problems[0]["problem"], witness=problems[:3], case={"params": {k: v for k, v in p.items()}})
     if idx % 100 == 0:
@@ -137,7 +175,8 @@ def decide_manual(idx, seed0):
     with gc.Scratch() as sc_:
         with monitors.fs_record() as fs:
             try:
-                mb.create_sg_from_board(moves, rewards, loose, ks[0] / 100, ks[1] / 100, ks[2] / 100)
+                mb.create_sg_from_board(moves=moves, rewards=rewards, loose_tiles=loose, prob_robot_break=ks[0] / 100,
+                                           prob_light_break=ks[1] / 100, prob_tile_break=ks[2] / 100)
                 exc = None
             except Exception as e:
                 exc = e
@@ -198,8 +237,8 @@ def replay(case):
         return decide_pairs(case["pairs"] - 1)
     if "params" in case:
         p = case["params"]
-        exc, writes, files = run_generator(p)
-        pr = check_name(p, exc, writes, files)
+        exc, writes, files, content = run_generator(p, want_content=True)
+        pr = check_name(p, exc, writes, files) + check_content(p, content)
         return {"verdict": "violated" if pr else "held", "what": pr[0]["problem"] if pr else None, "case": case}
     return {"verdict": "inconclusive", "what": "manual case: rerun the check"}
 
